@@ -57,6 +57,8 @@ CLAIMED.update({
                 ref='DESIGN.md §3 C07'),
     'C23': dict(text='with a recording io.Writer attached to the real system: one write through the real Mapper to every address class / register from every machine state delivers exactly the written byte, once, iff the address is FF01, and keeps the earlier transcript in order; reads at any address and a machine cycle of every component deliver nothing; with no writer SB/SC writes change nothing readable and reach no failure site; SB and SC read FF',
                 ref='DESIGN.md §3 C23'),
+    'C11': dict(text='every implicit failure site (index range, nil dereference/invoke, division by zero, explicit panic, unexpected os.Exit) of the real code executed symbolically from arbitrary invariant states: (a) image loading for a configuration set of lengths x cartridge-type bytes x RAM-size bytes with every other byte symbolic, construction failure accepted, then guest reads/writes at any address, a machine cycle and a RAM dump; (b) per cartridge kind one write to every address class/register + read anywhere + machine cycle from every component state (controller registers: every guest-writable value), and the controller harnesses per ROM/RAM size; (c) every per-cycle step function (PPU timing, renderPixel from any register state, OAM corruption, DMA, APU, timer, RTC); (d) every defined opcode and the interrupt dispatch (no failure, os.Exit never reached) and each of the 11 undefined opcodes (os.Exit reached)',
+                ref='DESIGN.md §3 C11', note=NOTE + '; image length is a finite configuration set, not symbolic'),
 })
 
 NA_REASON = {
